@@ -22,11 +22,11 @@ func (i Duration) MarshalJSON() ([]byte, error) {
 }
 
 func (i *Duration) UnmarshalJSON(b []byte) error {
-	var l = len(b)
-	if l <= 2 {
+	var s, ok = jsText(b)
+	if !ok {
 		return ErrInvalidDuration
 	}
-	var dur, err = time.ParseDuration(string(b[1 : l-1]))
+	var dur, err = time.ParseDuration(s)
 	if err != nil {
 		return err
 	}
